@@ -22,6 +22,7 @@ from sa import core, aggtables as AT
 from sa.pyfront import Program
 
 RULES = {
+    "R-C04-j": "the input-format helper as_separate_validity (summarised by every aggregate rule) keeps its contract: a (values, validity) pair is passed through; a single array gets validity = ~isnan(array) for every dtype with a missing marker (all float widths, datetime64 / timedelta64 NaT) - a dtype shortcut to all-True is accepted only for marker-free kinds",
     "R-C04-i": "a weight given as a per-row array or as a bare scalar takes part in the constructor's row arrays (a dropped scalar weight loses its missingness and its zero)",
     "R-C04-h": "a region that receives weight or fact values is never an integer region nor typed after the weights (a weighted valid count that wraps to 0 makes a fully valid cell missing)",
     "R-C04-g": "aggregate constructors do not overwrite the caller's arrays (imported from the C17 analysis): zero-filling the caller's NaN-marked rows in place erases the missing markers, so a later aggregate over the same array - in another report format or the other cube - sees no missing cell",
@@ -39,6 +40,11 @@ def main(tier):
                       declined="that the counters hold the right numbers for given data (values); valid_count with plain replacement 0 is excluded as the property says")
     rep.trusted_base = ["CPython ast", "symbolic walker + configuration oracle", "aggregate algebra normaliser"]
     prog = Program()
+    from sa import valhelper
+    nvh = 0
+    for _m in ('ffuncs', 'xfuncs'):
+        nvh += valhelper.check(prog, rep, _m, 'R-C04-j')
+    rep.floor('R-C04-j', 4, nvh)
     C = AT.Collector()
     n_a = AT.rule_predicates(prog, C, AT.SHARED)
     n_b = 0
